@@ -396,7 +396,7 @@ def _csv_rows(text: str):
     return rows if not row else None
 
 
-def c09_itemsets(nest: int, hdr: bool, pa1: bool, pb0: bool, pb2: bool, c0: int, c1: int) -> bool:
+def c09_itemsets(nest: int, hdr: bool, pa1: bool, pb0: bool, pb2: bool, c0: int, c1: int, lname: int = 0, twice: bool = False) -> bool:
     """
     vpre: 33 <= c0 <= 126 and 33 <= c1 <= 126
     vpost: _ == True
@@ -415,17 +415,18 @@ def c09_itemsets(nest: int, hdr: bool, pa1: bool, pb0: bool, pb2: bool, c0: int,
     for w in reversed(wrap):
         rows.append({"type": "end " + w})
     # sparse sheet: cells may be absent; texts carry symbolic characters (quote and comma included)
-    r0 = {"list_name": "cities", "name": "n0", "zone": "z" + S(c0)}  # names are dict/set keys downstream: concrete
-    r1 = {"list_name": "cities", "name": "m1", "label": 'L, "q" ' + S(c1)}  # comma and quote: concrete, the tracer is symbolic
+    LN = ["list_name", "list name"][lname]  # documented spellings of the list-name header
+    r0 = {LN: "cities", "name": "n0", "zone": "z" + S(c0)}  # names are dict/set keys downstream: concrete
+    r1 = {LN: "cities", "name": "m1", "label": 'L, "q" ' + S(c1)}  # comma and quote: concrete, the tracer is symbolic
     if pa1:
         r0["label"] = "A" + S(c1)
     if pb0:
         r1["state"] = "s" + S(c0)
     if pb2:
         r0["state"] = "t"
-    ext = [r0, r1]
-    wb = {"survey": rows, "external_choices": ext}
-    header = ["list_name", "name", "zone", "label", "state"]
+    ext = [dict(r0), dict(r1)]  # the expected image is taken from a copy: the rows handed to pyxform may not be changed by it either
+    wb = {"survey": rows, "external_choices": [r0, r1]}
+    header = [LN, "name", "zone", "label", "state"]
     if hdr:
         wb["external_choices_header"] = [{k: None for k in header}]
     data = get_xlsform(xlsform=wb)
@@ -435,6 +436,14 @@ def c09_itemsets(nest: int, hdr: bool, pa1: bool, pb0: bool, pb2: bool, c0: int,
     text = external_choices_to_csv(workbook_dict=data)
     if text is None:
         return False
+    if [r0, r1] != ext:
+        return False  # the caller's rows were modified in place
+    if twice:
+        # the same workbook dict converted a second time gives the same itemsets
+        data2 = get_xlsform(xlsform=wb)
+        workbook_to_json(workbook_dict=data2, form_name="data", warnings=[])
+        if external_choices_to_csv(workbook_dict=data2) != text:
+            return False
     # expected sheet image: header row (given, or first appearance order), then every cell under
     # its own header, absent cells empty; rendered in the QUOTE_ALL dialect (RFC 4180)
     head = list(header)
@@ -458,11 +467,26 @@ specialise(
     "C09",
     "d.itemsets-csv",
     c09_itemsets,
-    {"nest": [0, 1, 2, 3, 4]},
+    {"nest": [0, 1, 2, 3, 4], "lname": [0], "twice": [False]},
     timeout=400,
     kernel=("pyxform.utils:external_choices_to_csv", "pyxform.utils:has_external_choices", "pyxform.xls2json:workbook_to_json", "pyxform.xls2json_backends:get_xlsform"),
     shims=("S1", "S2", "S4", "S6"),
     symbolic="presence of optional cells on two external_choices rows (3 symbolic booleans: sparse rows), explicit header row supplied or not (boolean), two symbolic printable ASCII characters inside cell texts (quote and comma included; one cell also holds a literal comma and quotes)",
     bounds="nesting of the select_one_external question fixed per instance (top level, group, repeat, group in repeat, group in group); 2 sheet rows x 5 columns; CSV parsed back with an RFC 4180 reader",
+    weight=80,
+)
+
+specialise(
+    "C09",
+    "d.itemsets-csv-spellings",
+    c09_itemsets,
+    {"nest": [0, 3], "lname": [0, 1], "twice": [False, True]},
+    skip_if=lambda fx: fx["lname"] == 0 and not fx["twice"],
+    reach_if=lambda fx: fx["nest"] == 0 and fx["lname"] == 1 and fx["twice"],
+    timeout=400,
+    kernel=("pyxform.utils:external_choices_to_csv", "pyxform.utils:has_external_choices", "pyxform.xls2json:workbook_to_json", "pyxform.xls2json_backends:get_xlsform", "pyxform.parsing.sheet_headers:dealias_and_group_headers"),
+    shims=("S1", "S2", "S4", "S6"),
+    symbolic="as d.itemsets-csv",
+    bounds="list-name header spelled 'list_name' / 'list name' (fixed per instance); the caller's row dicts must be left unchanged; optionally the same workbook dict is converted a second time and must give the same CSV",
     weight=80,
 )
